@@ -15,6 +15,10 @@ Next ==
   /\ LET x == Tr[l] IN
      CASE x.ev = "graph" -> n' = x.n /\ E' = x.edges /\ parts' = <<>> /\ rnd' = NoRound /\ acc' = GA!NoAcc(x.n) /\ mval' = [g \in 0..(x.n - 1) |-> 0]
        [] x.ev = "part" -> parts' = Append(parts, x) /\ UNCHANGED <<n, E, rnd, acc, mval>>
+       [] x.ev = "partsum" -> parts' = Append(parts, x) /\ UNCHANGED <<n, E, rnd, acc, mval>>
+       [] x.ev = "partsumend" -> /\ (IF Len(parts) = x.hosts /\ P!SummaryOK(parts) THEN TRUE
+                                     ELSE Rej(IF Len(parts) # x.hosts THEN "host-log-missing" ELSE P!SummaryWhy(parts)))
+                                 /\ UNCHANGED <<n, E, parts, rnd, acc, mval>>
        [] x.ev = "partend" -> /\ (IF Len(parts) = x.hosts /\ P!PartitionOK(n, E, parts) THEN TRUE
                                   ELSE Rej(IF Len(parts) # x.hosts THEN "host-log-missing" ELSE P!Why(n, E, parts)))
                               /\ UNCHANGED <<n, E, parts, rnd, acc, mval>>
